@@ -176,6 +176,10 @@ var harnessPrims = map[string]StubFn{
 		x.pendKnown = append(x.pendKnown, KnownRegion{constStr(a[0]), asBool(a[1])})
 		return nil
 	},
+	"vPanics": func(x *Exec, fr *Frame, fn *ssa.Function, a []Value, p token.Pos) Value {
+		x.assumeNoPanic = !asBool(a[0]).isTrue()
+		return nil
+	},
 	"vSplit": func(x *Exec, fr *Frame, fn *ssa.Function, a []Value, p token.Pos) Value {
 		x.splitVars = append(x.splitVars, constStr(a[0]))
 		return nil
@@ -272,6 +276,48 @@ func (x *Exec) findStub(fn *ssa.Function, name string) StubFn {
 
 func (x *Exec) findInvokeStub(typ types.Type, m *types.Func) StubFn {
 	return nil
+}
+
+// summaryStub: the callee is summarised as "returns an arbitrary value": fresh solver variables for
+// float / int / bool results (not harness inputs: a counterexample that depends on them is checked by replay)
+func summaryStub(x *Exec, fr *Frame, fn *ssa.Function, args []Value, p token.Pos) Value {
+	res := fn.Signature.Results()
+	mk := func(t types.Type) Value {
+		x.freshN++
+		name := fmt.Sprintf("sum_%s_%d", fn.Name(), x.freshN)
+		switch {
+		case isFloat(t):
+			if x.concrete != nil {
+				return VFloat{mkFConst(0)}
+			}
+			return VFloat{mkVar(name, 'f', 0)}
+		default:
+			if w, _ := intWidth(t); w > 0 {
+				if x.concrete != nil {
+					return VInt{mkConst(w, 0)}
+				}
+				return VInt{mkVar(name, 'v', w)}
+			}
+			if b, ok := t.Underlying().(*types.Basic); ok && b.Info()&types.IsBoolean != 0 {
+				if x.concrete != nil {
+					return VBool{ts.False}
+				}
+				return VBool{mkVar(name, 'b', 0)}
+			}
+		}
+		return zeroValue(t)
+	}
+	switch res.Len() {
+	case 0:
+		return nil
+	case 1:
+		return mk(res.At(0).Type())
+	}
+	e := make([]Value, res.Len())
+	for i := range e {
+		e[i] = mk(res.At(i).Type())
+	}
+	return VTuple{e}
 }
 
 func noopStub(x *Exec, fr *Frame, fn *ssa.Function, args []Value, p token.Pos) Value {
